@@ -108,6 +108,9 @@ func RandomSpec(r *sim.Rand) DocSpec {
 		sp.TextOps = 1 + r.Intn(2)
 	}
 	sp.FormXObj = on(density / 2)
+	if sp.FormXObj && r.Pct(50) {
+		sp.FormNest = 1 + r.Intn(2)
+	}
 	sp.StdWidths = on(density / 2)
 	sp.BlankPages = on(density / 2)
 	sp.Headings = on(density)
@@ -174,6 +177,7 @@ func (sp DocSpec) Features() []string {
 	add(sp.TextOps == 1, "textops=TJ")
 	add(sp.TextOps >= 2, "textops=mixed")
 	add(sp.FormXObj, "form-xobject")
+	add(sp.FormXObj && sp.FormNest > 0, "form-nest")
 	add(sp.StdWidths, "std-widths")
 	add(sp.BlankPages, "blank-pages")
 	add(sp.Headings, "headings")
@@ -561,10 +565,18 @@ func (sp DocSpec) Shrinks() []DocSpec {
 		return true
 	})
 	try(func(s *DocSpec) bool {
+		if s.FormNest == 0 {
+			return false
+		}
+		s.FormNest--
+		return true
+	})
+	try(func(s *DocSpec) bool {
 		if !s.FormXObj {
 			return false
 		}
 		s.FormXObj = false
+		s.FormNest = 0
 		return true
 	})
 	return out
@@ -701,6 +713,10 @@ func SpecWithFeatures(features []string) (DocSpec, bool) {
 		case f == "form-xobject":
 			sp.FormXObj = true
 			sp.Lines = 4
+		case f == "form-nest":
+			sp.FormXObj = true
+			sp.FormNest = 2
+			sp.Lines = 5
 		case f == "revisions":
 			if sp.Revisions == 0 {
 				sp.Revisions = 1
@@ -838,6 +854,9 @@ func (sp DocSpec) Without(f string) DocSpec {
 		c.Headings = false
 	case f == "form-xobject":
 		c.FormXObj = false
+		c.FormNest = 0
+	case f == "form-nest":
+		c.FormNest = 0
 	case f == "revisions":
 		c.Revisions = 0
 		c.RevOps = nil
